@@ -321,14 +321,14 @@ func (r *Run) Finish() int {
 	for _, l := range lines {
 		fmt.Println(l)
 	}
-	if len(r.Broken) > 0 {
-		for _, b := range r.Broken {
-			fmt.Fprintln(os.Stderr, "HARNESS-ERROR:", b)
-		}
-		return 2
+	for _, b := range r.Broken {
+		fmt.Fprintln(os.Stderr, "HARNESS-ERROR:", b)
 	}
 	if confirmed > 0 {
-		return 1
+		return 1 // confirmed violations win over unconfirmed ones (history-dependent failures may not replay from a fresh state)
+	}
+	if len(r.Broken) > 0 {
+		return 2
 	}
 	return 0
 }
